@@ -147,9 +147,11 @@ impl World {
 	}
 
 	pub fn do_restart(&mut self, n: usize, style: u8) -> bool {
-		if self.nodes[n].live.is_some() {
+		if self.nodes[n].live.is_some() || self.nodes[n].gone {
 			return false;
 		}
+		// a restarted node may have lost the record of its last bump (C07-5 compares per incarnation)
+		self.oracle.last_fee.retain(|k, _| k.0 != n);
 		let node = &self.nodes[n];
 		let (mgr_bytes, mon_bytes): (Option<Vec<u8>>, Vec<([u8; 32], Vec<u8>)>) = {
 			let mut d = node.disk.lock().unwrap();
